@@ -1,4 +1,5 @@
 import ZV.Model.C27
+import ZV.Model.C27Sel
 /-! `c27 hs <ver> <suite> <key> <kex> <server scenario> <skip 0/1> <mode 0..4> <client scenario> <i>` → `c=<ok|fail> s=<ok|fail>`
 `c27 name <ver> <ServerName form> <certificate kind> <skip 0/1> <i>` → `c=… s=…`
 `c27 res <ver> <server cert> <first client cfg> <second client cfg> <cache k|1> <i>` → `c1=… s1=… c2=… s2=… r2=<1|0|->`
@@ -167,7 +168,198 @@ def cbStr (h : HookSet) (skip : Bool) (c : ServerCred) : String :=
   let s := runFlag "p" h.cvpc (clientVpcRuns h.cvpc skip c) ++ runFlag "c" h.cvc (clientVcRuns h.cvpc h.cvc skip c)
   if s.isEmpty then "-" else s
 
+/-! ## selection / policy ops (Model/C27Sel.lean)
+
+`c27 sel <hook a|n|c|e> <nil|build|map:k=i,…> <certs cn:san+san/… | -> <supports bits | -> <ServerName | -> <i>` → `hook|err|nocerts|cert=<i>` (+ ` map=…` for `build`)
+`c27 ssfc <vers> <key> <ssa>` → `s=<schemes>`;  `c27 sss <vers> <key> <ssa> <peer algs>` → `ok=<scheme>|err`
+`c27 cri <certificate types> <hasSignatureAlgorithm 0/1> <algs>` → `s=<schemes>`
+`c27 gcc <vers> <schemes> <acceptable CAs> <key;ssa;issuers/…>` → `cert=<i>|none`
+`c27 pol <ClientAuthType> <kind> <callback 0|1|2> <i>` → `ok|alert=<n> peers=<n> chains=<0|1> vpc=<0|1>` -/
+
+def splitOnChar (c : Char) (s : List Char) : List (List Char) :=
+  match s with
+  | [] => [[]]
+  | x :: rest =>
+    match splitOnChar c rest with
+    | [] => [[]]
+    | cur :: more => if x = c then [] :: cur :: more else (x :: cur) :: more
+
+def u16sOfBytes : Bytes → Option (List Nat)
+  | [] => some []
+  | [_] => none
+  | a :: b :: rest =>
+    match u16sOfBytes rest with
+    | some r => some ((a.toNat * 256 + b.toNat) :: r)
+    | none => none
+
+def parseU16s (s : String) : Option (List Nat) :=
+  match ofHex s with
+  | some bs => u16sOfBytes bs
+  | none => none
+
+def hex16 (n : Nat) : String :=
+  String.ofList [hexDigit (n / 4096 % 16), hexDigit (n / 256 % 16), hexDigit (n / 16 % 16), hexDigit (n % 16)]
+
+def showU16s (l : List Nat) : String := if l.isEmpty then "-" else String.join (l.map hex16)
+
+def parseKey (s : String) : Option Key :=
+  match s.toList with
+  | ['d'] => some .ed25519
+  | ['n'] => some .notSigner
+  | ['o'] => some .otherSigner
+  | 'r' :: rest => (String.ofList rest).toNat?.map Key.rsa
+  | 'e' :: rest => (String.ofList rest).toNat?.map Key.ecdsa
+  | _ => none
+
+def parseSsa (s : String) : Option (Option (List Nat)) :=
+  if s == "-" then some none else if s == "e" then some (some []) else (parseU16s s).map some
+
+def digitVal (c : Char) : Option Nat := if '0' ≤ c ∧ c ≤ '9' then some (c.toNat - 48) else none
+
+def parseCaIds : List Char → Option (List Nat)
+  | [] => some []
+  | c :: rest =>
+    match digitVal c, parseCaIds rest with
+    | some d, some r => some (d :: r)
+    | _, _ => none
+
+def parseIssuers : List Char → Option (List (Option Nat))
+  | [] => some []
+  | c :: rest =>
+    match parseIssuers rest with
+    | none => none
+    | some r => if c = 'x' then some (none :: r) else
+      match digitVal c with
+      | some d => some (some d :: r)
+      | none => none
+
+def dashEmpty (s : String) : List Char := if s == "-" then [] else s.toList
+
+def parseClientCert (s : List Char) : Option ClientCert :=
+  match splitOnChar ';' s with
+  | [k, ssa, iss] =>
+    match parseKey (String.ofList k), parseSsa (String.ofList ssa), parseIssuers (dashEmpty (String.ofList iss)) with
+    | some k, some ssa, some iss => some ⟨k, ssa, iss⟩
+    | _, _, _ => none
+  | _ => none
+
+def parseAll {α} (f : List Char → Option α) : List (List Char) → Option (List α)
+  | [] => some []
+  | x :: rest =>
+    match f x, parseAll f rest with
+    | some a, some r => some (a :: r)
+    | _, _ => none
+
+/-- `cn:san+san`, a leading `!` = the leaf does not parse -/
+def parseLeafNames (s : List Char) : Option LeafNames :=
+  let (parses, body) := match s with
+    | '!' :: rest => (false, rest)
+    | _ => (true, s)
+  match splitOnChar ':' body with
+  | [cn, sans] => some ⟨parses, cn, if sans.isEmpty then [] else splitOnChar '+' sans⟩
+  | _ => none
+
+def parseMapEntry (s : List Char) : Option (List Char × Nat) :=
+  match splitOnChar '=' s with
+  | [k, v] => (String.ofList v).toNat?.map (fun i => (k, i))
+  | _ => none
+
+def parseBits : List Char → Option (List Bool)
+  | [] => some []
+  | c :: rest =>
+    match parseBits rest with
+    | none => none
+    | some r => if c = '1' then some (true :: r) else if c = '0' then some (false :: r) else none
+
+def insertSorted (e : String × Nat) : List (String × Nat) → List (String × Nat)
+  | [] => [e]
+  | x :: rest => if e.1 < x.1 then e :: x :: rest else x :: insertSorted e rest
+
+def showMap (m : NameMap) : String :=
+  let sorted := (m.map (fun (k, v) => (String.ofList k, v))).foldr insertSorted []
+  if sorted.isEmpty then "-" else ",".intercalate (sorted.map (fun (k, v) => k ++ ">" ++ toString v))
+
+def showSel : SelRes → String
+  | .hookCert => "hook"
+  | .hookErr => "err"
+  | .noCerts => "nocerts"
+  | .cert i => s!"cert={i}"
+
+def parseGetCertHook (s : String) : Option GetCertHook :=
+  if s == "a" then some .absent else if s == "n" then some .retNil else if s == "c" then some .retCert
+  else if s == "e" then some .retErr else none
+
+def handleSel (hook n2c certs bits name : String) : String :=
+  match parseGetCertHook hook, parseAll parseLeafNames (if certs == "-" then [] else splitOnChar '/' certs.toList),
+        parseBits (dashEmpty bits) with
+  | some h, some leaves, some sup =>
+    if sup.length ≠ leaves.length then "bad-op" else
+    let sn := dashEmpty name
+    if n2c == "nil" then showSel (getCertificate h leaves.length none sup sn)
+    else if n2c == "build" then
+      let m := buildNameToCertificate leaves
+      showSel (getCertificate h leaves.length (some m) sup sn) ++ " map=" ++ showMap m
+    else
+      match n2c.toList with
+      | 'm' :: 'a' :: 'p' :: ':' :: rest =>
+        match parseAll parseMapEntry (if rest.isEmpty then [] else splitOnChar ',' rest) with
+        | some entries =>
+          let m : NameMap := entries.foldl (fun m e => m.insert e.1 e.2) []
+          showSel (getCertificate h leaves.length (some m) sup sn)
+        | none => "bad-op"
+      | _ => "bad-op"
+  | _, _, _ => "bad-op"
+
+/-- certificate kind of selpki → what `processCertsFromClient` sees (trusted mapping; `verifies` is x509's verdict) -/
+def presentedOf (kind : String) : Option Presented :=
+  match ["none", "valid", "untrusted", "expired", "ekuserver", "ekunone", "ekuany", "garbage", "validextra", "validgarbage"].idxOf? kind with
+  | some k => presentedOfKind k
+  | none => none
+
+def parseVpc (s : String) : Option Hook :=
+  if s == "0" then some .absent else if s == "1" then some .permit else if s == "2" then some .reject else none
+
+def showPolicy (r : PolicyRes) : String :=
+  (match r.alert with
+   | some a => s!"alert={a}"
+   | none => "ok") ++ s!" peers={r.peers} chains={if r.chains then 1 else 0} vpc={if r.vpcRan then 1 else 0}"
+
+def handleSelOps (args : List String) : Option String :=
+  match args with
+  | ["sel", hook, n2c, certs, bits, name, _i] => some (handleSel hook n2c certs bits name)
+  | ["ssfc", vers, key, ssa] =>
+    match vers.toNat?, parseKey key, parseSsa ssa with
+    | some v, some k, some s => some ("s=" ++ showU16s (signatureSchemesForCertificate v ⟨k, s, []⟩))
+    | _, _, _ => some "bad-op"
+  | ["sss", vers, key, ssa, peer] =>
+    match vers.toNat?, parseKey key, parseSsa ssa, parseU16s peer with
+    | some v, some k, some s, some p =>
+      match selectSignatureScheme v ⟨k, s, []⟩ p with
+      | some a => some ("ok=" ++ hex16 a)
+      | none => some "err"
+    | _, _, _, _ => some "bad-op"
+  | ["cri", types, has, algs] =>
+    match ofHex types, parseU16s algs with
+    | some t, some a => some ("s=" ++ showU16s (criSchemes (t.map UInt8.toNat) (has == "1") a))
+    | _, _ => some "bad-op"
+  | ["gcc", vers, schemes, cas, certs] =>
+    match vers.toNat?, parseU16s schemes, parseCaIds (dashEmpty cas),
+          parseAll parseClientCert (if certs == "-" then [] else splitOnChar '/' certs.toList) with
+    | some v, some s, some c, some cs =>
+      match getClientCertificate v s c cs with
+      | some i => some s!"cert={i}"
+      | none => some "none"
+    | _, _, _, _ => some "bad-op"
+  | ["pol", mode, kind, vpc, _i] =>
+    match mode.toNat?, presentedOf kind, parseVpc vpc with
+    | some m, some p, some h => some (showPolicy (processCerts m p h))
+    | _, _, _ => some "bad-op"
+  | _ => none
+
 def handle (args : List String) : String :=
+  match handleSelOps args with
+  | some r => r
+  | none =>
   match args with
   | ["name", ver, form, kind, skip, _i] =>
     match formIdent form with
